@@ -785,9 +785,27 @@ def offset_invariance(tier):
                         bool(stats["diverging"])))
         return out
 
+    class PlainWeights(mici.transitions.MultinomialDynamicIntegrationTransition):
+        """the same kernel with immutable plain-float weights relative to the initial energy (accurate at moderate
+        energies): the log-represented pipeline must make the same decisions"""
+
+        def _weight_function(self, h, aux_vars):
+            return float(np.exp(aux_vars["h_init"] - h))
+
     for cls_name in ("MultinomialDynamicIntegrationTransition", "SliceDynamicIntegrationTransition"):
         cls = getattr(mici.transitions, cls_name)
         ref = chain(0.0, cls)
+        if cls_name.startswith("Multinomial"):
+            runs += 1
+            plain = chain(0.0, PlainWeights)
+            for i, (a, b) in enumerate(zip(plain, ref)):
+                if a[1] != b[1] or not np.allclose(a[0], b[0], atol=1e-6) or abs(a[3] - b[3]) > 1e-6 or abs(a[2] - b[2]) > 1e-6:
+                    viol.append((f"C20:transition-weights:{cls_name}:plain-reference",
+                                 f"{cls_name} with log-represented weights differs from the same kernel with plain weights exp(h_init - h) at "
+                                 f"moderate energies: iteration {i}: state {b[0].tolist()} after {b[1]} steps, reject_prob {b[3]!r}; plain weights: "
+                                 f"{a[0].tolist()} after {a[1]} steps, reject_prob {a[3]!r}", {"fn": "offset", "args": [cls_name, "plain"], "tier": tier,
+                                                                                             "engine": "logweights-numeric"}))
+                    break
         for offset in (800.0, -800.0, 1.0e4, -1.0e4, 35.0, -35.0, 100.0) + ((1.0e5, -1.0e5, 745.0, -709.0, -100.0, 20.0, -20.0, 300.0) if tier != "quick" else ()):
             runs += 1
             rp = {"fn": "offset", "args": [cls_name, offset], "tier": tier}
